@@ -80,6 +80,7 @@ Node(op, kids) == [op |-> op, kids |-> kids, leaf |-> ""]
 LeafVal(k) ==
   CASE k = "iv7" -> IntV(7) [] k = "iv2" -> IntV(2) [] k = "in3" -> IntV(-3) [] k = "iv1" -> IntV(1)
     [] k = "f15" -> FloatV(3, 2) [] k = "f2" -> FloatV(2, 1) [] k = "f1" -> FloatV(1, 1) [] k = "fv025" -> FloatV(1, 4) [] k = "f32v" -> FloatV(5, 2) [] k = "u7" -> IntV(7) [] k = "u8v" -> IntV(3)
+    [] k = "chr" -> FloatV(99, 1)               \* a character constant is a numeric literal like any other: a float
     [] k = "ss" -> StrV("s") [] k = "sv" -> StrV("t") [] k = "se" -> StrV("")
     [] k = "bt" -> BoolV(TRUE) [] k = "bf" -> BoolV(FALSE) [] k = "bv" -> BoolV(TRUE)
     [] k = "pt" -> BoolV(TRUE) [] k = "pf" -> BoolV(FALSE) [] k = "pi" -> IntV(7)
@@ -90,6 +91,7 @@ IsProbe(k) == k \in {"pt", "pf", "pi"}
 LeafToks(k, path) ==
   CASE k = "iv7" -> <<"iv7">> [] k = "iv2" -> <<"iv2">> [] k = "in3" -> <<"in3">> [] k = "iv1" -> <<"iv1">>
     [] k = "f15" -> <<"1.5">> [] k = "f2" -> <<"2">> [] k = "f1" -> <<"1">> [] k = "fv025" -> <<"fv025">> [] k = "f32v" -> <<"f32v">>    \* f32v: a Go float32 variable holding 2.5
+    [] k = "chr" -> <<"'c'">>
     [] k = "u7" -> <<"u7">> [] k = "u8v" -> <<"u8v">>           \* unsigned Go integers: uint(7), uint8(3)
     [] k = "ss" -> <<"\"s\"">> [] k = "sv" -> <<"sv">> [] k = "se" -> <<"\"\"">>
     [] k = "bt" -> <<"true">> [] k = "bf" -> <<"false">> [] k = "bv" -> <<"bv">>
